@@ -7,6 +7,7 @@ import (
 	"reflect"
 	"strings"
 	"sync"
+	"sync/atomic"
 	"time"
 
 	"github.com/high-moctane/mocrelay"
@@ -23,14 +24,18 @@ var metricsTraceSpec = tv.Spec{Module: "MetricsTrace", Config: "MetricsTrace.cfg
 
 // scriptHandler: downstream of the metrics middleware. It records what it
 // receives and what it emits; its replies make every step end observably.
-//   REQ s            -> EOSE s          (REQ "rej:..." -> CLOSED instead)
-//   CLOSE "srv:<s>"  -> CLOSED <s>, NOTICE      (the server ends subscription s)
-//   CLOSE s          -> NOTICE
-//   EVENT            -> OK ; COUNT -> COUNT ; AUTH -> AUTH challenge
+//
+//	REQ s            -> EOSE s          (REQ "rej:..." -> CLOSED instead)
+//	CLOSE "srv:<s>"  -> CLOSED <s>, NOTICE      (the server ends subscription s)
+//	CLOSE s          -> NOTICE
+//	REQ "race:<s>"   -> EOSE, a short pause, CLOSED race:<s>, NOTICE   (crosses the client's CLOSE)
+//	EVENT            -> OK ; COUNT -> COUNT ; AUTH -> AUTH challenge
 type scriptHandler struct {
 	mu       sync.Mutex
 	received []mocrelay.ClientMsg
 	emitted  []mocrelay.ServerMsg
+	races    int
+	gate     atomic.Int32
 }
 
 func (h *scriptHandler) ServeNostr(ctx context.Context, send chan<- mocrelay.ServerMsg, recv <-chan mocrelay.ClientMsg) error {
@@ -61,6 +66,19 @@ func (h *scriptHandler) ServeNostr(ctx context.Context, send chan<- mocrelay.Ser
 			case *mocrelay.ClientReqMsg:
 				if strings.HasPrefix(m.SubscriptionID, "rej:") {
 					outs = []mocrelay.ServerMsg{mocrelay.NewServerClosedMsg(m.SubscriptionID, "", "refused")}
+				} else if strings.HasPrefix(m.SubscriptionID, "race:") {
+					// EOSE, then -- a moment later, while the client's CLOSE of the same id is on its way -- CLOSED
+					if !put(mocrelay.NewServerEOSEMsg(m.SubscriptionID)) {
+						return ctx.Err()
+					}
+					h.races++
+					// wait until the client is about to send its CLOSE, then a swept fraction of a microsecond more
+					for t0 := time.Now(); h.gate.Load() == 0 && time.Since(t0) < 50*time.Millisecond; {
+					}
+					h.gate.Store(0)
+					for t0 := time.Now(); time.Since(t0) < time.Duration(h.races%60)*40*time.Nanosecond; {
+					}
+					outs = []mocrelay.ServerMsg{mocrelay.NewServerClosedMsg(m.SubscriptionID, "", "server closes"), mocrelay.NewServerNoticeMsg("raced")}
 				} else {
 					outs = []mocrelay.ServerMsg{mocrelay.NewServerEOSEMsg(m.SubscriptionID)}
 				}
@@ -180,7 +198,7 @@ func C19(run *core.Run) {
 	r := run.Rand("c19")
 	nt := 25
 	if run.Thorough() {
-		nt = 250
+		nt = 1500
 	}
 	distinct := core.NewDistinct()
 	var traces []tv.Trace
@@ -208,14 +226,14 @@ func C19(run *core.Run) {
 			return s
 		}
 		randomMsg := func(rr func(int) int, k int) mocrelay.ClientMsg {
-			subs := []string{"a", "b", "rej:c"}
+			subs := []string{"a", "b", "rej:c", ""} // the empty subscription id passes the admission gate
 			switch rr(8) {
 			case 0, 1, 2:
 				return &mocrelay.ClientReqMsg{SubscriptionID: subs[rr(len(subs))], ReqFilters: []*mocrelay.ReqFilter{{}}}
 			case 3:
-				return &mocrelay.ClientCloseMsg{SubscriptionID: []string{"a", "b", "never"}[rr(3)]}
+				return &mocrelay.ClientCloseMsg{SubscriptionID: []string{"a", "b", "never", ""}[rr(4)]}
 			case 4:
-				return &mocrelay.ClientCloseMsg{SubscriptionID: "srv:" + []string{"a", "b"}[rr(2)]}
+				return &mocrelay.ClientCloseMsg{SubscriptionID: "srv:" + []string{"a", "b", ""}[rr(3)]}
 			case 5:
 				return &mocrelay.ClientEventMsg{Event: conc.Event(abs.Event{ID: fmt.Sprintf("me%d_%d", t, k), Author: "a", Kind: kinds[rr(len(kinds))], TS: 1}, "m")}
 			case 6:
@@ -307,6 +325,22 @@ func C19(run *core.Run) {
 				ok = step(s, randomMsg(r.Intn, k))
 			}
 		}
+		// phase 1b (every 5th trace): a client CLOSE and a server CLOSED of the same subscription cross
+		if (t%5 == 4 || t == 0) && ok {
+			for _, s := range sessions {
+				if !s.live {
+					continue
+				}
+				for k := 0; k < 600 && ok; k++ {
+					id := fmt.Sprintf("race:%d", k%3)
+					ok = step(s, &mocrelay.ClientReqMsg{SubscriptionID: id, ReqFilters: []*mocrelay.ReqFilter{{}}})
+					s.down.gate.Store(1)
+					ok = ok && step(s, &mocrelay.ClientCloseMsg{SubscriptionID: id})
+				}
+				observe("after crossing CLOSE / CLOSED")
+				break
+			}
+		}
 		// phase 2: the remaining sessions run truly concurrently, one observation when all are quiescent
 		var wg sync.WaitGroup
 		for i, s := range sessions {
@@ -335,7 +369,7 @@ func C19(run *core.Run) {
 		distinct.Add(tr.Name)
 		traces = append(traces, tr)
 	}
-	out, err := tv.Validate(metricsTraceSpec, nil, traces, 6)
+	out, err := tv.ValidateChunks(metricsTraceSpec, nil, traces, 6, 100, 8)
 	if out != nil {
 		run.Add("traces_validated_against_impl", int64(out.Accepted+len(out.Rejects)))
 		run.Add("trace_lines", int64(out.Lines))
